@@ -18,7 +18,7 @@ import tempfile
 import lib
 
 BIN = "c17"
-ID_RULE = "len"          # the numbering rule of JobManager::add_as_current the model mirrors: "len" (len+1, the code
+ID_RULE = "max"          # the numbering rule of JobManager::add_as_current the model mirrors: "len" (len+1, the code
                          # as it is) or "max" (max live id + 1, the proposed repair).  Switch when /repo is repaired.
 CLAUSE_DUP = "job_id_reuse_after_poll"
 CLAUSE_PREV = "previous_mark_not_cleared"   # outside the property's text; only reported when listed
